@@ -436,6 +436,11 @@ async fn main() {
     let big = |n: usize| Row { kind: 1, f: vec![V::B(uid_a()), V::B(vec![b'e'; n / 2]), V::B(vec![b'l'; n - n / 2]), V::B(uid_a()), V::I(1), kb()] };
     for n in [887usize, 888, 950, 951, 952] { cases.extend(case_row(&mut ctx, &big(n), "K4-reference-size-window")); }
 
+    // the whole escape table of serde_json's string quoting (the digest is defined for any text, JSON or not)
+    { let mut t: Vec<u8> = (0u8..128).collect(); t.extend_from_slice("é日😀\u{80}\u{7ff}\u{800}\u{ffff}\u{10000}".as_bytes());
+      let r = Row { kind: 0, f: vec![V::B(uid_a()), V::N, V::I(1), V::I(2), V::B(b"e".to_vec()), V::B(t), V::N, kb()] };
+      cases.extend(case_row(&mut ctx, &r, "json-escape-table")); }
+
     // the witnesses computed by the model's collide_all, replayed through the real sign()/verify()
     let mut wit_note = json!(null);
     match coq_witnesses(&key) {
@@ -494,13 +499,13 @@ async fn main() {
     let _ = std::fs::remove_dir_all(&dbdir);
 
     // ---------------- generated
-    let n_rows = scale(700, 7000);
+    let n_rows = scale(500, 7000);
     for n in 0..n_rows {
         let kind = [0usize, 0, 0, 1, 1, 2, 3, 4, 5][n % 9];
         let r = gen_row(&mut rng, kind, &key);
         cases.extend(case_row(&mut ctx, &r, "row"));
     }
-    let n_pairs = scale(700, 7000);
+    let n_pairs = scale(500, 7000);
     let mut n = 0;
     let mut guard = 0;
     while n < n_pairs && guard < n_pairs * 20 {
